@@ -31,11 +31,11 @@ LEVEL_TEXT = (
 LEVEL_NOTE = "Trusted: virtual-time loop and the rebinding of haiway.helpers.throttling.monotonic to the loop clock."
 ASSUMPTIONS = [
     "arrival order is the order in which callers reach the wrapper (logged immediately before the call)",
-    "cancellation of waiting callers is not in the statement and not generated",
+    "callers cancelled while waiting or running are generated; for them only the window bound and FIFO order over the calls that do start are judged",
     "only the stated no-needless-delay condition is asserted, not minimal delay in general",
 ]
 EXHAUSTIVE_MEANS = "thorough: all arrival patterns of <=4 calls on a half-period grid for every limit in 1..3 (zero-duration functions)"
-REQUIRED_CLASSES = ["overload-window", "timedelta-period", "burst", "function-raises"]
+REQUIRED_CLASSES = ["overload-window", "timedelta-period", "burst", "function-raises", "cancelled-caller"]
 
 
 class ThrErr(Exception):
@@ -80,10 +80,17 @@ def run_case(case) -> Outcome:
             arrivals.append((i, loop.time()))
             try:
                 results[i] = ("ret", await wrapped(i))
+            except asyncio.CancelledError as exc:
+                results[i] = ("cancelled", exc)
+                if calls[i].get("cancel_at") is not None:
+                    raise
             except BaseException as exc:  # noqa: BLE001 - observation
                 results[i] = ("exc", exc)
 
         tasks = [loop.create_task(caller(i)) for i in range(n)]
+        for i, c in enumerate(calls):
+            if c.get("cancel_at") is not None:
+                loop.call_at(c["cancel_at"], tasks[i].cancel)
         if tasks:
             await asyncio.wait(tasks)
         return None
@@ -97,7 +104,10 @@ def run_case(case) -> Outcome:
     s_of = dict(starts)
     a_of = dict(arrivals)
     # (4) every call runs and returns the function's own outcome
+    any_cancel = any(c.get("cancel_at") is not None for c in calls)
     for i in range(n):
+        if calls[i].get("cancel_at") is not None:
+            continue  # a cancelled caller ends cancelled (or finished earlier): its outcome is not the subject
         if i not in results:
             if res.outcome != "hang":
                 out.violate("term", f"C15.term/call-never-finished/{cfg}", f"call {i}")
@@ -122,8 +132,8 @@ def run_case(case) -> Outcome:
     start_order = [i for i, _ in starts]
     if start_order != [i for i in arr_order if i in s_of]:
         out.violate("fifo", f"C15.fifo/starts-out-of-arrival-order/{cfg}", f"arrivals={arrivals} starts={starts}")
-    # (3) no needless delay
-    for pos, (i, a) in enumerate(arrivals):
+    # (3) no needless delay (only judged without cancelled callers: a cancelled waiter's slot is a grey area)
+    for pos, (i, a) in enumerate(arrivals if not any_cancel else []):
         if i not in s_of:
             continue
         earlier = arr_order[:pos]
@@ -153,6 +163,8 @@ def run_case(case) -> Outcome:
         classes.append("function-raises")
     if any(c["dur"] >= period for c in calls):
         classes.append("long-running-function")
+    if any_cancel:
+        classes.append("cancelled-caller")
     out.classes = classes
     out.nontrivial = overload
     return out
@@ -185,7 +197,12 @@ def strategy(tier):
         calls = []
         for a in arr:
             dur = draw(st.sampled_from([0, 0, 0.125, period / 2 if (period / 2 * 8) % 1 == 0 else 0.25, period, 3 * period]))
-            calls.append({"a": a, "dur": dur, "out": draw(st.sampled_from(["value", "value", "exc"]))})
+            cancel_at = None
+            if draw(st.integers(0, 7)) == 0:
+                # the caller is cancelled while waiting for its turn or while running; the window bound over the calls
+                # that DO start must still hold
+                cancel_at = a + draw(st.sampled_from([0.125, 0.25, 0.5, period / 2 if (period / 2 * 8) % 1 == 0 else 0.25]))
+            calls.append({"a": a, "dur": dur, "out": draw(st.sampled_from(["value", "value", "exc"])), "cancel_at": cancel_at})
         return {"limit": limit, "period": period, "form": form, "calls": calls}
 
     return cases()
